@@ -252,7 +252,9 @@ func (a *act) convert(v Val, from, to types.Type, st *State) Val {
 		if b, ok := et.Underlying().(*types.Basic); ok && b.Kind() == types.Uint8 {
 			e.cur.log.assert(eq(ln, app(SInt, "str.len", v.T[0])))
 		} else {
+			// []rune(s): between 1 rune per 4 bytes and 1 rune per byte; non-empty exactly when s is
 			e.cur.log.assert(app(SBool, "<=", ln, app(SInt, "str.len", v.T[0])))
+			e.cur.log.assert(app(SBool, "<=", app(SInt, "str.len", v.T[0]), app(SInt, "*", intLit(4), ln)))
 		}
 		return Val{Typ: to, T: []Term{r, intLit(0), ln, cp}}
 	}
